@@ -60,6 +60,7 @@ func (sb *switchboard) addConn(conn net.Conn) {
 	sb.addConnM.Lock()
 	connId := atomic.LoadUint32(&sb.connsCount)
 	sb.conns.Store(connId, conn)
+	vhook("addConn.stored")
 	// pickRandConn draws from [0, connsCount): only now may connId be drawn
 	atomic.StoreUint32(&sb.connsCount, connId+1)
 	sb.addConnM.Unlock()
